@@ -143,26 +143,11 @@ Section Oop.
   (* gd_flush / gd_close *)
   Definition oop_flush (st : oop) : oop := oop_finish st.
 
-  (* a read of n samples from sample 0 as dirfile-encoding(5) documents it: the
-     pending write is finished and moved into place first *)
-  Definition oop_get_doc (st : oop) (n : nat) : oop * list sample :=
+  (* a read of n samples from sample 0: _GD_InitRawIO(READ) finishes the pending
+     write and moves it into place first (encoding.c, since fix 2ffd53f), as
+     dirfile-encoding(5) documents *)
+  Definition oop_get (st : oop) (n : nat) : oop * list sample :=
     let st' := oop_finish st in (st', firstn n (o_old st')).
-
-  (* the same read as the code performs it (encoding.c:643-650, iopos.c:150-169):
-     when the old file is open next to the temporary file, _GD_InitRawIO(READ)
-     returns at once ("do nothing": file[0] is open and readable); _GD_DoSeek
-     then finishes the write but re-creates an empty temporary file, and the
-     read advances file[0] without the write side following *)
-  Definition oop_get_code (st : oop) (n : nat) : oop * list sample :=
-    match o_tmp st with
-    | Some w =>
-      if o_ropen st then
-        let st1 := if 0 <? length w then oop_init (oop_finish st) else st in
-        let got := firstn n (skipn (o_rpos st1) (o_old st1)) in
-        (mkOop (o_old st1) (o_exists st1) (o_ropen st1) (o_rpos st1 + length got) (o_tmp st1), got)
-      else oop_get_doc st n
-    | None => oop_get_doc st n
-    end.
 
   Definition oop_inv (st : oop) : Prop :=
     match o_tmp st with
@@ -208,12 +193,11 @@ Fixpoint mplex_spec_from {A} (i : nat) (spf1 spf2 : nat) (cnt : list Z) (val : Z
   | _, _ => []
   end.
 
-(* MPLEX, what _GD_MplexOutData does: tests B[i], copies C[i*spfB/spfA]
-   (reads outside the buffers are modelled by a default value) *)
+(* MPLEX, what _GD_MplexOutData does: tests B[i*spfB/spfA], copies C[i] *)
 Fixpoint mplex_code_from {A} (dflt : A) (i : nat) (spf1 spf2 : nat) (cnt : list Z) (val : Z) (old new : list A) (len : nat) : list A :=
   match len, old with
   | S len', o :: ro =>
-    (if nth i cnt (val + 1) =? val then nth (i * spf2 / spf1) new dflt else o)
+    (if nth (i * spf2 / spf1) cnt (val + 1) =? val then nth i new dflt else o)
       :: mplex_code_from dflt (S i) spf1 spf2 cnt val ro new len'
   | _, _ => []
   end.
